@@ -14,6 +14,9 @@ claimed = {
  'C06': ("contract-based deductive verification: frame (modifies) obligations on every MergeClause/Build implementation, Statement.clone, getInstance, Session and every chain method, SMT-discharged, counterexamples replayed",
          "Proof that clause merging, SQL generation and every chain method of /repo write only memory allocated by the call (in-place append into shared backing arrays included) when started from a reusable handle, and that derived handles own fresh statement/clause containers.",
          "plugin clause types and statement modifiers outside /repo respect the same interface contracts; BuildCondition's frame is trusted (finding F7); finisher epilogues (Execute reset, Count restore) not yet under contract", "4/C06"),
+ 'C08': ("contract-based deductive verification: functional contract of SoftDeleteQueryClause.ModifyStatement (filter appended at top level, OR units grouped first, idempotent, Unscoped no-op) with quantified loop invariants; site obligations that update/delete modifiers delegate to it and that every query/update/delete executor applies the schema's modifiers before building, SMT-discharged",
+         "Proof, for all clause maps, that the soft-delete filter ends up as the last, top-level AND-ed member of the WHERE list with user OR units grouped before it, exactly once, and is skipped only under Unscoped; together with the C02 grouping lemmas the rendered text is (user conditions) AND filter.",
+         "C02 lemmas; SQL semantics of IS NULL; WHERE entries hold clause.Where (assumed invariant, preserved by Where.MergeClause); joins/preload/association paths are not yet swept; schema.Parse registers the modifiers (reflection)", "4/C08"),
  'C09': ("contract-based deductive verification: functional contract of checkMissingWhereConditions from the property statement + dominance site obligations in the Update/Delete executors, SMT-discharged",
          "Proof, for all clause maps, that the guard rejects exactly the statements without an effective condition (soft-delete filter not counted) and that every driver call of the update/delete executors happens after the guard ran and passed.",
          "BuildCondition returns no expression for empty forms (trusted, reflection); WHERE entries hold clause.Where (proved for Where.MergeClause)", "4/C09"),
